@@ -337,6 +337,18 @@ func (fc *FuncCtx) specField(base Term, f string) Term {
 			return SlCap(base)
 		}
 	}
+	if base.Sort.Kind == KSeq {
+		// value mode: the header fields of a slice are not observable; a value-mode slice behaves like a
+		// non-nil header with offset 0 and cap == len
+		switch f {
+		case "arr":
+			return IntLit(1)
+		case "off":
+			return IntLit(0)
+		case "len", "cap":
+			return seqLen(base)
+		}
+	}
 	if base.Sort.Kind == KData {
 		d := fc.Sorts.dts[base.Sort.Name]
 		if d != nil {
